@@ -126,12 +126,12 @@ Proof.
     + rewrite !Z.mod_small by lia. lia.
 Qed.
 
-Lemma next_address_search : forall fuel r i, 0 <= i < dev_count (rn r) -> 0 <= dev_src r i <= 251 ->
+Lemma next_address_search_gen : forall fuel r i restart, 0 <= i < dev_count (rn r) -> 0 <= dev_src r i <= 251 ->
   (dist_to_end (dev_src r i) (d_claim_end (get_dev (rn r) i)) < Z.of_nat fuel) -> 0 <= d_claim_end (get_dev (rn r) i) <= 251 ->
-  next_address fuel r i false =
+  next_address fuel r i restart =
     set_addr_changed (set_src r i (search fuel (taken r i) (dev_src r i) (d_claim_end (get_dev (rn r) i))) false).
 Proof.
-  induction fuel as [|k IH]; intros r i Hi Ha Hd He.
+  induction fuel as [|k IH]; intros r i restart Hi Ha Hd He.
   - unfold dist_to_end in Hd. pose proof (Z.mod_pos_bound (d_claim_end (get_dev (rn r) i) - dev_src r i) 252). lia.
   - cbn [next_address search]. unfold dev_src in *. set (d := get_dev (rn r) i) in *.
     change c_N2kNullCanBusAddress with 254. change c_N2kMaxCanBusAddress with 251.
@@ -152,6 +152,11 @@ Proof.
     + rewrite set_src_get by exact Hi. cbn [dev_with_src d_claim_end]. exact He.
 Qed.
 
+Lemma next_address_search fuel r i : 0 <= i < dev_count (rn r) -> 0 <= dev_src r i <= 251 ->
+  (dist_to_end (dev_src r i) (d_claim_end (get_dev (rn r) i)) < Z.of_nat fuel) -> 0 <= d_claim_end (get_dev (rn r) i) <= 251 ->
+  next_address fuel r i false =
+    set_addr_changed (set_src r i (search fuel (taken r i) (dev_src r i) (d_claim_end (get_dev (rn r) i))) false).
+Proof. apply next_address_search_gen. Qed.
 Lemma succ_plus a j : 0 <= a <= 251 -> (succ_addr a + j) mod 252 = (a + (j + 1)) mod 252.
 Proof. intros Ha. rewrite succ_addr_mod by exact Ha. rewrite Zplus_mod_idemp_l. f_equal. lia. Qed.
 Lemma shifted_ne a j : 0 <= a <= 251 -> 1 <= j <= 251 -> (a + j) mod 252 <> a.
@@ -230,34 +235,63 @@ Lemma next_address_null fuel r i : d_src (get_dev (rn r) i) = 254 -> next_addres
 Proof. intros E. cbn [next_address]. change c_N2kNullCanBusAddress with 254. rewrite E. reflexivity. Qed.
 Lemma next_address_null300 r i : d_src (get_dev (rn r) i) = 254 -> next_address 300 r i false = r.
 Proof. apply (next_address_null 299). Qed.
-Lemma losses_null i n r r' : after_losses i n r r' -> d_src (get_dev (rn r) i) = 254 -> r' = r.
+(* the next address in a form without local definitions: either null, or valid with a strictly smaller distance *)
+Lemma next_address_progress r k : (k < lib_ndev r)%nat -> 0 <= lib_src r k <= 251 -> 0 <= d_claim_end (lib_dev r k) <= 251 ->
+  lib_src (next_address 300 r (Z.of_nat k) false) k = 254 \/
+  ((k < lib_ndev (next_address 300 r (Z.of_nat k) false))%nat /\ 0 <= lib_src (next_address 300 r (Z.of_nat k) false) k <= 251 /\
+   0 <= d_claim_end (lib_dev (next_address 300 r (Z.of_nat k) false) k) <= 251 /\
+   dist_to_end (lib_src (next_address 300 r (Z.of_nat k) false) k) (d_claim_end (lib_dev (next_address 300 r (Z.of_nat k) false) k))
+     < dist_to_end (lib_src r k) (d_claim_end (lib_dev r k))).
 Proof.
-  intros Hl. induction Hl as [r|n r r' Hl IH]; intros E; [reflexivity|].
-  pose proof (next_address_null300 r i E) as X. rewrite X in IH. apply IH; exact E.
+  intros Hk Ha He.
+  pose proof (lib_valid r k Hk) as Hi. unfold lib_src, lib_dev in Ha, He.
+  assert (Hd: dist_to_end (dev_src r (Z.of_nat k)) (d_claim_end (get_dev (rn r) (Z.of_nat k))) < Z.of_nat 300)
+    by (pose proof (dist_range (dev_src r (Z.of_nat k)) (d_claim_end (get_dev (rn r) (Z.of_nat k)))); lia).
+  rewrite (next_address_search 300 r (Z.of_nat k) Hi Ha Hd He).
+  pose proof (search_spec 300 (taken r (Z.of_nat k)) (dev_src r (Z.of_nat k)) (d_claim_end (get_dev (rn r) (Z.of_nat k))) Ha He Hd) as [N C].
+  remember (search 300 (taken r (Z.of_nat k)) (dev_src r (Z.of_nat k)) (d_claim_end (get_dev (rn r) (Z.of_nat k)))) as a' eqn:Ea. clear Ea.
+  fold (moved r (Z.of_nat k) a').
+  assert (Ek: lib_src (moved r (Z.of_nat k) a') k = a') by (unfold lib_src, lib_dev; rewrite moved_get by exact Hi; reflexivity).
+  assert (Ee: d_claim_end (lib_dev (moved r (Z.of_nat k) a') k) = d_claim_end (lib_dev r k)) by (unfold lib_dev; rewrite moved_get by exact Hi; reflexivity).
+  rewrite Ek, Ee. unfold dev_src, lib_src, lib_dev in *.
+  destruct C as [[Z1 _]|(j & J1 & J2 & _ & _ & J5)]; [left; exact Z1|right].
+  split; [|split; [|split]].
+  - unfold lib_ndev. pose proof (moved_count r (Z.of_nat k) a' Hi) as Hc. unfold dev_count, lib_ndev in *. lia.
+  - rewrite J2. pose proof (Z.mod_pos_bound (d_src (get_dev (rn r) (Z.of_nat k)) + j) 252). lia.
+  - exact He.
+  - rewrite J5. lia.
+Qed.
+
+Lemma exhausted_aux i n r1 r' : after_losses i n r1 r' -> forall k, i = Z.of_nat k ->
+  (lib_src r1 k = 254 \/
+   ((k < lib_ndev r1)%nat /\ 0 <= lib_src r1 k <= 251 /\ 0 <= d_claim_end (lib_dev r1 k) <= 251 /\
+    dist_to_end (lib_src r1 k) (d_claim_end (lib_dev r1 k)) < Z.of_nat n)) -> lib_src r' k = 254.
+Proof.
+  intros Hl. induction Hl as [r|n r r' Hl IH]; intros k -> C.
+  - destruct C as [Z1|(_ & _ & _ & D)]; [exact Z1|]. pose proof (dist_range (lib_src r k) (d_claim_end (lib_dev r k))). lia.
+  - apply (IH k eq_refl). destruct C as [Z1|(Hk & Ha & He & D)].
+    + left. rewrite next_address_null300; exact Z1.
+    + destruct (next_address_progress r k Hk Ha He) as [Z1|(P1 & P2 & P3 & P4)]; [left; exact Z1|right].
+      split; [exact P1|split; [exact P2|split; [exact P3|lia]]].
 Qed.
 
 Theorem exhausted_run : exhausted_run_stmt.
 Proof.
-  unfold exhausted_run_stmt. intros r k n r' Hk Ha He Hl. revert Hk Ha He.
-  induction Hl as [r|n r r' Hl IH]; intros Hk Ha He Hn; [pose proof (dist_range (lib_src r k) (d_claim_end (lib_dev r k))); lia|].
-  destruct (null_when_exhausted r k Hk Ha He) as (_ & Hc & Hend & _ & C). cbv zeta in *.
-  destruct C as [[Z1 _]|(j & J1 & J2 & _ & _ & J5)].
-  - rewrite (losses_null _ _ _ _ Hl Z1). exact Z1.
-  - apply IH.
-    + rewrite Hc. exact Hk.
-    + rewrite J2. pose proof (Z.mod_pos_bound (lib_src r k + j) 252). lia.
-    + rewrite Hend. exact He.
-    + rewrite Hend, J5. lia.
+  unfold exhausted_run_stmt. intros r k n r' Hk Ha He Hl Hn.
+  apply (exhausted_aux _ _ _ _ Hl k eq_refl). right. split; [exact Hk|split; [exact Ha|split; [exact He|lia]]].
 Qed.
 Print Assumptions exhausted_run.
 
 (* ---------- NAME bytes ---------- *)
-Lemma le_bytes8_le_of v : le_bytes 8 v = name_bytes v.
+Lemma le_bytes_le_of k : forall v, le_bytes k v = le_of k v.
 Proof.
-  unfold le_bytes, name_bytes. cbn [seq map le_of]. 
-  repeat (f_equal; [try (rewrite !Z.div_div by lia; reflexivity); try (rewrite Z.div_1_r; reflexivity)|]).
-  reflexivity.
+  unfold le_bytes. induction k as [|k IH]; intros v; [reflexivity|].
+  cbn [seq map le_of]. f_equal; [change (256 ^ Z.of_nat 0) with 1; now rewrite Z.div_1_r|].
+  rewrite <- IH, <- seq_shift, map_map. apply map_ext. intros i.
+  rewrite Nat2Z.inj_succ, Z.pow_succ_r by lia. rewrite Z.div_div by lia. reflexivity.
 Qed.
+Lemma le_bytes8_le_of v : le_bytes 8 v = name_bytes v.
+Proof. apply le_bytes_le_of. Qed.
 Lemma le_val_le_of k : forall v, 0 <= v -> le_val (le_of k v) = v mod 256 ^ Z.of_nat k.
 Proof.
   induction k as [|k IH]; intros v Hv.
@@ -270,7 +304,7 @@ Proof. reflexivity. Qed.
 Lemma le_val_name v : 0 <= v < 2^64 -> le_val (firstn 8 (name_bytes v)) = v.
 Proof. intros Hv. change (firstn 8 (name_bytes v)) with (le_of 8 v). rewrite le_val_le_of by lia. apply Z.mod_small. change (256 ^ Z.of_nat 8) with (2^64). exact Hv. Qed.
 Lemma of_le8_le_val l : of_le8 l = le_val (firstn 8 l).
-Proof. unfold of_le8. induction (firstn 8 l) as [|b r IH]; cbn; [reflexivity|]. now rewrite IH. Qed.
+Proof. unfold of_le8. induction (firstn 8 l) as [|b r IH]; cbn [fold_right le_val]; [reflexivity|]. now rewrite IH. Qed.
 Lemma of_le8_name v : 0 <= v < 2^64 -> of_le8 (name_bytes v) = v.
 Proof. intros Hv. rewrite of_le8_le_val. apply le_val_name; exact Hv. Qed.
 
@@ -278,30 +312,445 @@ Proof. intros Hv. rewrite of_le8_le_val. apply le_val_name; exact Hv. Qed.
 Definition tweak (n n':node) : Prop :=
   n_w64 n' = n_w64 n /\ n_mode n' = n_mode n /\ n_open n' = n_open n /\ n_now n' = n_now n /\ n_pgn n' = n_pgn n /\ n_addr_changed n' = n_addr_changed n /\
   dev_count n' = dev_count n /\
-  forall j, d_src (get_dev n' j) = d_src (get_dev n j) /\ d_name (get_dev n' j) = d_name (get_dev n j) /\ (dev_ok (get_dev n j) -> dev_ok (get_dev n' j)).
+  forall j, 0 <= j -> d_src (get_dev n' j) = d_src (get_dev n j) /\ d_name (get_dev n' j) = d_name (get_dev n j) /\ (dev_ok (get_dev n j) -> dev_ok (get_dev n' j)).
 Lemma tweak_refl n : tweak n n.
-Proof. unfold tweak. repeat split; auto. Qed.
+Proof. unfold tweak. do 7 (split; [reflexivity|]). intros j _. do 2 (split; [reflexivity|]). tauto. Qed.
 Lemma tweak_trans a b c : tweak a b -> tweak b c -> tweak a c.
 Proof.
   intros (A1&A2&A3&A4&A5&A6&A7&A8) (B1&B2&B3&B4&B5&B6&B7&B8). unfold tweak.
-  repeat split; try congruence; destruct (A8 j) as (X1&X2&X3), (B8 j) as (Y1&Y2&Y3); try congruence. intros Hd. apply Y3, X3, Hd.
+  do 7 (split; [congruence|]). intros j Hj. destruct (A8 j Hj) as (X1&X2&X3), (B8 j Hj) as (Y1&Y2&Y3).
+  split; [congruence|split; [congruence|]]. intros Hd. apply Y3, X3, Hd.
 Qed.
 Lemma tweak_upd_q n q d : tweak n (upd_q n q d).
-Proof. unfold tweak, upd_q, dev_count, get_dev. cbn. repeat split; auto. Qed.
-Lemma tweak_upd_dev n i d' : 0 <= i ->
+Proof. unfold tweak, upd_q, dev_count, get_dev. cbn. do 7 (split; [reflexivity|]). intros j _. do 2 (split; [reflexivity|]). tauto. Qed.
+Lemma tweak_upd_dev n i d' : 0 <= i < dev_count n ->
   d_src d' = d_src (get_dev n i) -> d_name d' = d_name (get_dev n i) -> (dev_ok (get_dev n i) -> dev_ok d') -> tweak n (upd_dev n i d').
 Proof.
-  intros Hi E1 E2 E3. unfold tweak. rewrite dev_count_upd. repeat split; try reflexivity;
-    (destruct (Z.eq_dec j i) as [->|Hji];
-     [destruct (Z_lt_le_dec i (dev_count n)) as [Hlt|Hge];
-      [rewrite get_upd_same by lia; auto
-      |unfold get_dev, upd_dev, znth, zset; cbn [n_devs]; rewrite !nth_overflow by (rewrite ?set_nth_length; unfold dev_count in Hge; lia); auto]
-     |destruct (Z_lt_le_dec j 0) as [Hneg|Hnn];
-      [unfold get_dev, upd_dev, znth, zset; cbn [n_devs]; destruct j; try lia; cbn [Z.to_nat]; destruct (Z.to_nat i) eqn:Ei; [lia|]; destruct (n_devs n); auto
-      |rewrite get_upd_other by lia; auto]]).
+  intros Hi E1 E2 E3. unfold tweak. rewrite dev_count_upd. do 7 (split; [reflexivity|]). intros j Hj.
+  destruct (Z.eq_dec j i) as [->|Hji].
+  - rewrite get_upd_same by exact Hi. auto.
+  - rewrite get_upd_other by lia. do 2 (split; [reflexivity|]). tauto.
 Qed.
 Lemma dev_ok_claim_end d : dev_ok d -> dev_ok {| d_src := d_src d; d_name := d_name d; d_claim_end := claim_end_of (d_src d); d_claim_timer := d_claim_timer d; d_tx := d_tx d;
      d_cells := d_cells d; d_tp_msg := d_tp_msg d; d_next_dt_time := d_next_dt_time d; d_next_dt_seq := d_next_dt_seq d; d_has_pending := d_has_pending d |}.
 Proof.
   intros [[[A B]|A] C]; split; cbn; auto. left. split; [exact A|]. unfold claim_end_of. change c_N2kMaxCanBusAddress with 251. destruct (Z.gtb_spec (d_src d) 0); lia.
 Qed.
+
+Lemma dev_ok_timer d t : dev_ok d -> dev_ok {| d_src := d_src d; d_name := d_name d; d_claim_end := d_claim_end d; d_claim_timer := t; d_tx := d_tx d;
+     d_cells := d_cells d; d_tp_msg := d_tp_msg d; d_next_dt_time := d_next_dt_time d; d_next_dt_seq := d_next_dt_seq d; d_has_pending := d_has_pending d |}.
+Proof. unfold dev_ok. cbn. tauto. Qed.
+Lemma tweak_claim_started n i : 0 <= i < dev_count n -> tweak n (fst (claim_started n i)).
+Proof.
+  intros Hi. unfold claim_started. destruct (sched_is_enabled _ _); [destruct (sched_is_time _ _ _)|]; cbn [fst]; try apply tweak_refl.
+  apply tweak_upd_dev; [exact Hi|reflexivity|reflexivity|]. intros Hd. apply (dev_ok_timer _ _ (dev_ok_claim_end _ Hd)).
+Qed.
+Lemma tweak_set_claim_timer n i t : 0 <= i < dev_count n -> tweak n (set_claim_timer n i t).
+Proof. intros Hi. unfold set_claim_timer. apply tweak_upd_dev; [exact Hi|reflexivity|reflexivity|apply dev_ok_timer]. Qed.
+Lemma set_claim_timer_q n i t : n_q (set_claim_timer n i t) = n_q n /\ n_drv (set_claim_timer n i t) = n_drv n.
+Proof. unfold set_claim_timer, upd_dev. cbn. split; reflexivity. Qed.
+
+(* ---------- sending a claim ---------- *)
+Definition send_ready (n:node) : Prop :=
+  n_open n = 3 /\ is_active_node n = true /\ n_drv n = [] /\ q_rd (n_q n) = q_wr (n_q n) /\ is_fast_packet_pgn (n_pgn n) 60928 = false.
+Lemma active_mode n : is_active_node n = true -> n_mode n = 1 \/ n_mode n = 2.
+Proof. unfold is_active_node. rewrite orb_true_iff, !Z.eqb_eq. tauto. Qed.
+Lemma claim_id_nonzero x : 0 <= x < 256 -> to_can_id 6 60928 x 255 <> 0.
+Proof.
+  intros Hx E. apply (proj1 (can_id_refusal 6 60928 x 255 ltac:(unfold id_args_ok; lia))) in E.
+  destruct E as [[_ E]|[E _]]; [apply E; reflexivity|lia].
+Qed.
+Lemma send_claim_spec n i : send_ready n -> 0 <= i < dev_count n -> 0 <= d_src (get_dev n i) < 256 ->
+  send_iso_address_claim n 255 i =
+    (upd_q (fst (claim_started n i)) (n_q n) [],
+     [EvTx (to_can_id 6 60928 (d_src (get_dev n i)) 255) 8 (name_bytes (d_name (get_dev n i))) true]).
+Proof.
+  intros (Hop & Hact & Hdrv & Hemp & Hfp) Hi Hs.
+  pose proof (active_mode n Hact) as Hm.
+  unfold send_iso_address_claim.
+  assert (E1: (255 =? 255) && (i =? -1) = false) by (destruct (Z.eqb_spec i (-1)); [lia|reflexivity]). rewrite E1.
+  assert (E2: (i <? 0) || (i >=? dev_count n) = false) by (destruct (Z.ltb_spec i 0); destruct (Z.geb_spec i (dev_count n)); try lia; reflexivity). rewrite E2.
+  set (d := get_dev n i) in *.
+  assert (G: send_gate n (claim_msg d 255) i = (fst (claim_started n i), Some (claim_msg d 255, i, to_can_id 6 60928 (d_src d) 255))).
+  { unfold send_gate. cbv zeta. rewrite Hop. cbn [Z.eqb negb Pos.eqb].
+    destruct (Z.geb_spec i (dev_count n)) as [?|_]; [lia|].
+    cbn [claim_msg m_pgn m_pri m_dst m_src m_data m_tp]. change c_N2kPGNIsoAddressClaim with 60928. change c_N2kMaxCanBusAddress with 251.
+    change (Z.land 60928 255) with 0. cbn [Z.eqb negb].
+    destruct (Z.geb_spec i 0) as [_|?]; [|lia]. fold d.
+    rewrite andb_false_r.
+    destruct (Z.eqb_spec (to_can_id 6 60928 (d_src d) 255) 0) as [E|_]; [exfalso; revert E; apply claim_id_nonzero; exact Hs|].
+    destruct (Z.eqb_spec (n_mode n) 0) as [E|_]; [lia|].
+    destruct (claim_started n i) as [n1 cl]. rewrite andb_false_r. cbn [fst]. reflexivity. }
+  unfold send_msg. rewrite G.
+  assert (L: m_len (claim_msg d 255) = 8) by reflexivity.
+  cbn [m_tp claim_msg]. rewrite andb_false_r.
+  unfold send_msg0. rewrite G. 
+  assert (F: (m_len (claim_msg d 255) <=? 8) && negb (is_fast_packet (fst (claim_started n i)) (claim_msg d 255)) = true).
+  { rewrite L. cbn [Z.leb Z.compare Pos.compare Pos.compare_cont andb]. unfold is_fast_packet. cbn [m_pri claim_msg m_pgn].
+    destruct (tweak_claim_started n i Hi) as (_&_&_&_&Hp&_). rewrite Hp. change c_N2kPGNIsoAddressClaim with 60928. rewrite Hfp. reflexivity. }
+  rewrite F. destruct (claim_started_q n i) as [Q1 Q2]. rewrite Q1, Q2, Hdrv.
+  rewrite send_frame_empty by exact Hemp. rewrite L. cbn [m_data claim_msg].
+  rewrite le_bytes8_le_of. reflexivity.
+Qed.
+
+Lemma send_ready_tweak n n' : send_ready n -> tweak n n' -> n_q n' = n_q n -> n_drv n' = [] -> send_ready n'.
+Proof.
+  intros (A&B&C&D&E) (T1&T2&T3&T4&T5&_) Q R. unfold send_ready, is_active_node in *. rewrite T2, T3, T5, Q, R. tauto.
+Qed.
+Lemma ready_to_send n : send_ready n -> is_ready_to_send n = true.
+Proof.
+  intros (A&B&_). destruct (active_mode n B) as [M|M]; unfold is_ready_to_send; rewrite A, M; reflexivity.
+Qed.
+Lemma start_claim_spec n i : send_ready n -> 0 <= i < dev_count n -> 0 <= d_src (get_dev n i) < 256 ->
+  exists n', start_address_claim n i = (n', [claim_event (d_src (get_dev n i)) (d_name (get_dev n i))]) /\
+             tweak n n' /\ n_q n' = n_q n /\ n_drv n' = [].
+Proof.
+  intros Hr Hi Hs. unfold start_address_claim. rewrite (ready_to_send n Hr).
+  set (n1 := set_claim_timer n i (sched_disabled (n_w64 n))).
+  pose proof (tweak_set_claim_timer n i (sched_disabled (n_w64 n)) Hi) as T1. fold n1 in T1.
+  destruct (set_claim_timer_q n i (sched_disabled (n_w64 n))) as [Q1 D1]. fold n1 in Q1, D1.
+  assert (R1: send_ready n1) by (apply (send_ready_tweak n n1 Hr T1 Q1); rewrite D1; apply Hr).
+  pose proof T1 as (_&_&_&_&_&_&C1&P1). destruct (P1 i ltac:(lia)) as (S1&N1&_).
+  rewrite (send_claim_spec n1 i R1 ltac:(lia) ltac:(lia)). rewrite S1, N1, Q1.
+  set (n2 := upd_q (fst (claim_started n1 i)) (n_q n) []).
+  assert (T2: tweak n1 n2).
+  { unfold n2. eapply tweak_trans; [apply (tweak_claim_started n1 i); rewrite C1; exact Hi|apply tweak_upd_q]. }
+  pose proof T2 as (_&_&_&_&_&_&C2&_).
+  eexists. split; [reflexivity|]. split; [|split].
+  - eapply tweak_trans; [exact T1|]. eapply tweak_trans; [exact T2|]. apply tweak_set_claim_timer. rewrite C2, C1. exact Hi.
+  - destruct (set_claim_timer_q n2 i (sched_from_now (n_w64 n2) (n_now n2) c_N2kAddressClaimTimeout)) as [-> _]. reflexivity.
+  - destruct (set_claim_timer_q n2 i (sched_from_now (n_w64 n2) (n_now n2) c_N2kAddressClaimTimeout)) as [_ ->]. reflexivity.
+Qed.
+
+(* ---------- FindSourceDeviceIndex ---------- *)
+Lemma find_src_spec devs : forall x off, 
+  (find_src devs x off = -1 /\ forall l, (l < length devs)%nat -> d_src (nth l devs ddev) <> x) \/
+  (exists l, find_src devs x off = off + Z.of_nat l /\ (l < length devs)%nat /\ d_src (nth l devs ddev) = x /\ forall l', (l' < l)%nat -> d_src (nth l' devs ddev) <> x).
+Proof.
+  induction devs as [|d r IH]; intros x off; cbn [find_src].
+  - left. split; [reflexivity|]. intros l Hl. cbn in Hl. lia.
+  - destruct (Z.eqb_spec (d_src d) x) as [E|NE].
+    + right. exists 0%nat. cbn [nth length]. repeat split; [lia|lia|exact E|intros; lia].
+    + destruct (IH x (off + 1)) as [[F N]|(l & F & Hl & E & N)].
+      * left. split; [exact F|]. intros [|l] Hl; cbn [nth length] in *; [exact NE|apply N; lia].
+      * right. exists (S l). cbn [nth length]. repeat split; [lia|lia|exact E|]. intros [|l'] Hl'; cbn [nth]; [exact NE|apply N; lia].
+Qed.
+Lemma find_source_none r x : (forall k, (k < lib_ndev r)%nat -> lib_src r k <> x) -> find_source_device r x = -1.
+Proof.
+  intros N. unfold find_source_device. destruct (x <=? 253); [|reflexivity].
+  destruct (find_src_spec (n_devs (rn r)) x 0) as [[F _]|(l & _ & Hl & E & _)]; [exact F|].
+  exfalso. apply (N l Hl). unfold lib_src, lib_dev, get_dev, znth. rewrite Nat2Z.id. exact E.
+Qed.
+Lemma find_source_at r x k : lib_sib_distinct r -> (k < lib_ndev r)%nat -> lib_src r k = x -> operational x -> find_source_device r x = Z.of_nat k.
+Proof.
+  intros Sd Hk E Hop. unfold find_source_device. destruct (Z.leb_spec x 253) as [_|?]; [|unfold operational in Hop; lia].
+  destruct (find_src_spec (n_devs (rn r)) x 0) as [[_ N]|(l & F & Hl & El & N)].
+  - exfalso. apply (N k Hk). unfold lib_src, lib_dev, get_dev, znth in E. rewrite Nat2Z.id in E. exact E.
+  - rewrite F. destruct (Nat.eq_dec l k) as [->|Hlk]; [lia|]. exfalso.
+    assert (El': lib_src r l = x) by (unfold lib_src, lib_dev, get_dev, znth; rewrite Nat2Z.id; exact El).
+    apply (Sd l k Hl Hk Hlk); [rewrite El'; exact Hop|congruence].
+Qed.
+
+(* ---------- well-formed nodes ---------- *)
+Lemma good_send_ready r : lib_good r -> lib_open r -> send_ready (rn r).
+Proof. intros (A&B&C&D&E&_) O. unfold send_ready. tauto. Qed.
+Lemma good_dev_ok r k : lib_good r -> (k < lib_ndev r)%nat -> dev_ok (lib_dev r k).
+Proof. intros (_&_&_&_&_&F&_) Hk. unfold lib_dev, get_dev, znth. rewrite Nat2Z.id. apply (proj1 (Forall_nth _ _) F); exact Hk. Qed.
+Lemma good_src_range r k : lib_good r -> (k < lib_ndev r)%nat -> 0 <= lib_src r k < 256.
+Proof. intros G Hk. destruct (good_dev_ok r k G Hk) as [[[A _]|A] _]; unfold lib_src; lia. Qed.
+
+(* a node whose [rn] was tweaked (addresses and NAMEs untouched), queue still empty, driver still accepting *)
+Lemma good_tweak r n' : lib_good r -> tweak (rn r) n' -> n_q n' = n_q (rn r) -> n_drv n' = [] ->
+  lib_good (with_rn r n') /\ lib_ndev (with_rn r n') = lib_ndev r /\ (forall k, lib_src (with_rn r n') k = lib_src r k) /\
+  (forall k, lib_name (with_rn r n') k = lib_name r k) /\ (lib_open r -> lib_open (with_rn r n')) /\ lib_flag (with_rn r n') = lib_flag r.
+Proof.
+  intros (A&B&C&D&E&F&S) (T1&T2&T3&T4&T5&T6&T7&T8) Q R.
+  assert (Hn: lib_ndev (with_rn r n') = lib_ndev r) by (unfold lib_ndev, dev_count in *; cbn [rn with_rn]; lia).
+  assert (Hs: forall k, lib_src (with_rn r n') k = lib_src r k) by (intros k; unfold lib_src, lib_dev; cbn [rn with_rn]; apply (T8 (Z.of_nat k)); lia).
+  assert (Hm: forall k, lib_name (with_rn r n') k = lib_name r k) by (intros k; unfold lib_name, lib_dev; cbn [rn with_rn]; apply (T8 (Z.of_nat k)); lia).
+  split; [|split; [exact Hn|split; [exact Hs|split; [exact Hm|split]]]].
+  - unfold lib_good, is_active_node in *. cbn [rn with_rn]. rewrite T2, T5, Q, R. repeat (split; [first [assumption|reflexivity]|]). split.
+    + apply Forall_nth. intros l d Hl. change (l < lib_ndev (with_rn r n'))%nat in Hl. rewrite Hn in Hl.
+      rewrite (nth_indep _ d ddev) by (unfold lib_ndev, dev_count in *; cbn [rn with_rn] in *; lia).
+      pose proof (good_dev_ok r l (conj A (conj B (conj C (conj D (conj E (conj F S)))))) Hl) as Hd.
+      destruct (T8 (Z.of_nat l) ltac:(lia)) as (_&_&X). unfold lib_dev, get_dev, znth in *. rewrite Nat2Z.id in *. apply X; exact Hd.
+    + intros k l Hk Hl Hkl Hop. rewrite Hn in Hk, Hl. rewrite !Hs in *. apply S; assumption.
+  - unfold lib_open. cbn [rn with_rn]. congruence.
+  - unfold lib_flag. cbn [rn with_rn]. exact T6.
+Qed.
+
+(* a node in which device k moved to a' (GetNextAddress), a' not held by a sibling *)
+Lemma good_moved r k a' : lib_good r -> (k < lib_ndev r)%nat -> (a' = 254 \/ (0 <= a' <= 251 /\ ~ sibling_holds r k a')) -> 0 <= lib_src r k <= 251 ->
+  lib_good (moved r (Z.of_nat k) a') /\ lib_ndev (moved r (Z.of_nat k) a') = lib_ndev r /\
+  lib_src (moved r (Z.of_nat k) a') k = a' /\ (forall l, l <> k -> lib_src (moved r (Z.of_nat k) a') l = lib_src r l) /\
+  (forall l, lib_name (moved r (Z.of_nat k) a') l = lib_name r l) /\ (lib_open r -> lib_open (moved r (Z.of_nat k) a')) /\ lib_flag (moved r (Z.of_nat k) a') = true.
+Proof.
+  intros G Hk Ha Hsrc. pose proof (lib_valid r k Hk) as Hi.
+  pose proof (moved_rn r (Z.of_nat k) a' Hi) as (M1&M2&M3&M4&M5&M6&M7&M8&M9).
+  assert (Hn: lib_ndev (moved r (Z.of_nat k) a') = lib_ndev r).
+  { unfold lib_ndev. pose proof (moved_count r (Z.of_nat k) a' Hi) as Hc. unfold dev_count in Hc. lia. }
+  assert (Hk': lib_src (moved r (Z.of_nat k) a') k = a') by (unfold lib_src, lib_dev; rewrite moved_get by exact Hi; reflexivity).
+  assert (Ho: forall l, l <> k -> lib_dev (moved r (Z.of_nat k) a') l = lib_dev r l) by (intros l Hl; unfold lib_dev; apply moved_get_other; [exact Hi|lia|lia]).
+  assert (Hm: forall l, lib_name (moved r (Z.of_nat k) a') l = lib_name r l).
+  { intros l. unfold lib_name. destruct (Nat.eq_dec l k) as [->|Hl]; [unfold lib_dev; rewrite moved_get by exact Hi; reflexivity|rewrite Ho by exact Hl; reflexivity]. }
+  assert (Hoth: forall l, l <> k -> lib_src (moved r (Z.of_nat k) a') l = lib_src r l) by (intros l Hl; unfold lib_src; rewrite Ho by exact Hl; reflexivity).
+  pose proof G as (A&B&C&D&E&F&S).
+  split; [|split; [exact Hn|split; [exact Hk'|split; [exact Hoth|split; [exact Hm|split]]]]].
+  - unfold lib_good, is_active_node in *. rewrite M4, M7, M8, M9. repeat (split; [first [assumption|reflexivity]|]). split.
+    + apply Forall_nth. intros l d Hl. change (l < lib_ndev (moved r (Z.of_nat k) a'))%nat in Hl. rewrite Hn in Hl.
+      rewrite (nth_indep _ d ddev) by (fold (lib_ndev (moved r (Z.of_nat k) a')); lia).
+      assert (X: nth l (n_devs (rn (moved r (Z.of_nat k) a'))) ddev = lib_dev (moved r (Z.of_nat k) a') l) by (unfold lib_dev, get_dev, znth; now rewrite Nat2Z.id).
+      rewrite X. destruct (Nat.eq_dec l k) as [->|Hlk].
+      * unfold lib_dev. rewrite moved_get by exact Hi. destruct (good_dev_ok r k G Hk) as [[[P Q]|P] N]; [|unfold lib_src, lib_dev in Hsrc, P; lia].
+        split; [|exact N]. cbn [dev_with_src d_src d_claim_end]. destruct Ha as [->|[Ha _]]; [right; reflexivity|left; split; [exact Ha|exact Q]].
+      * rewrite Ho by exact Hlk. apply good_dev_ok; assumption.
+    + intros p q Hp Hq Hpq Hop. rewrite Hn in Hp, Hq.
+      destruct (Nat.eq_dec p k) as [->|Hpk]; [|destruct (Nat.eq_dec q k) as [->|Hqk]].
+      * rewrite Hk' in *. rewrite (Hoth q) by congruence.
+        destruct Ha as [->|[_ Ha]]; [unfold operational in Hop; lia|]. intros Eq. apply Ha. exists q. repeat split; [exact Hq|congruence|congruence].
+      * rewrite Hk'. rewrite (Hoth p) in * by exact Hpk.
+        destruct Ha as [->|[_ Ha]]; [unfold operational in Hop; lia|]. intros Eq. apply Ha. exists p. repeat split; [exact Hp|exact Hpk|exact Eq].
+      * rewrite (Hoth p), (Hoth q) in * by assumption. apply S; assumption.
+  - unfold lib_open. congruence.
+  - unfold lib_flag. exact M2.
+Qed.
+
+(* ---------- HandleISOAddressClaim, case by case ---------- *)
+Definition inert_case (r:rnode) (x n:Z) : Prop :=
+  ((forall k, (k < lib_ndev r)%nat -> lib_src r k <> x) \/ ~ operational x) /\ on_claim r x n = (r, []).
+Definition defend_case (r:rnode) (x n:Z) (k:nat) : Prop :=
+  lib_name r k < n /\ exists n', on_claim r x n = (with_rn r n', [claim_event x (lib_name r k)]) /\ tweak (rn r) n' /\ n_q n' = n_q (rn r) /\ n_drv n' = [].
+Definition move_case (r:rnode) (x n:Z) (k:nat) : Prop :=
+  n < lib_name r k /\ exists a' n', on_claim r x n = (with_rn (moved r (Z.of_nat k) a') n', [claim_event a' (lib_name r k)]) /\
+    tweak (rn (moved r (Z.of_nat k) a')) n' /\ n_q n' = n_q (rn (moved r (Z.of_nat k) a')) /\ n_drv n' = [] /\
+    a' <> x /\ (a' = 254 \/ (0 <= a' <= 251 /\ ~ sibling_holds r k a')).
+Lemma on_claim_spec r x n : lib_good r -> lib_open r -> 0 <= n < 2^64 -> (forall k, (k < lib_ndev r)%nat -> lib_src r k = x -> lib_name r k <> n) ->
+  inert_case r x n \/ exists k, (k < lib_ndev r)%nat /\ lib_src r k = x /\ operational x /\ (forall l, (l < k)%nat -> lib_src r l <> x) /\
+                               (defend_case r x n k \/ move_case r x n k).
+Proof.
+  intros G O Hn Hfor. unfold inert_case, defend_case, move_case, on_claim, handle_claim. cbv zeta. change c_N2kNullCanBusAddress with 254.
+  unfold find_source_device. destruct (Z.leb_spec x 253) as [Hx|Hx].
+  2:{ left. split; [right; unfold operational; lia|]. rewrite orb_true_r. reflexivity. }
+  destruct (find_src_spec (n_devs (rn r)) x 0) as [[F N]|(l & F & Hl & El & N)].
+  - left. rewrite F. split; [|rewrite orb_true_r; reflexivity]. left. intros k Hk. unfold lib_src, lib_dev, get_dev, znth. rewrite Nat2Z.id. apply N; exact Hk.
+  - change (l < lib_ndev r)%nat in Hl. rewrite F. cbn [Z.add].
+    assert (Esrc: lib_src r l = x) by (unfold lib_src, lib_dev, get_dev, znth; rewrite Nat2Z.id; exact El).
+    pose proof (lib_valid r l Hl) as Hi.
+    assert (Hop: operational x).
+    { destruct (good_dev_ok r l G Hl) as [[[P _]|P] _]; unfold lib_src in Esrc; [unfold operational; lia|lia]. }
+    assert (E254: x =? 254 = false) by (apply Z.eqb_neq; unfold operational in Hop; lia).
+    assert (Em1: Z.of_nat l =? -1 = false) by (apply Z.eqb_neq; lia).
+    rewrite E254, Em1. cbn [orb]. rewrite chk_dev_valid by exact Hi.
+    rewrite name_bytes_length. cbn [Z.of_nat Pos.of_succ_nat Pos.succ Z.leb Z.compare Pos.compare Pos.compare_cont].
+    rewrite of_le8_name by exact Hn. fold (lib_dev r l). fold (lib_name r l).
+    right. exists l. split; [exact Hl|split; [exact Esrc|split; [exact Hop|split]]].
+    { intros l' Hl'. unfold lib_src, lib_dev, get_dev, znth. rewrite Nat2Z.id. apply N; exact Hl'. }
+    pose proof (good_send_ready r G O) as Hr. pose proof (good_src_range r l G Hl) as Hrange.
+    destruct (Z.ltb_spec (lib_name r l) n) as [Lt|Ge].
+    + left. split; [exact Lt|]. unfold rsend_claim. rewrite (send_claim_spec (rn r) (Z.of_nat l) Hr Hi Hrange).
+      fold (lib_dev r l). fold (lib_src r l). fold (lib_name r l). rewrite Esrc.
+      eexists. split; [reflexivity|]. split; [|split; reflexivity].
+      eapply tweak_trans; [apply tweak_claim_started; exact Hi|apply tweak_upd_q].
+    + right. assert (Gt: n < lib_name r l) by (specialize (Hfor l Hl Esrc); lia). split; [exact Gt|].
+      destruct (claim_started (rn r) (Z.of_nat l)) as [n1 started].
+      assert (Eq: lib_name r l =? n = false) by (apply Z.eqb_neq; lia). rewrite Eq. cbn [andb].
+      assert (Ha: 0 <= dev_src r (Z.of_nat l) <= 251) by (unfold dev_src; fold (lib_dev r l); fold (lib_src r l); rewrite Esrc; exact Hop).
+      assert (He: 0 <= d_claim_end (get_dev (rn r) (Z.of_nat l)) <= 251).
+      { destruct (good_dev_ok r l G Hl) as [[[_ Q]|P] _]; [exact Q|unfold dev_src in Ha; unfold lib_dev in P; lia]. }
+      assert (Hd: dist_to_end (dev_src r (Z.of_nat l)) (d_claim_end (get_dev (rn r) (Z.of_nat l))) < Z.of_nat 300)
+        by (pose proof (dist_range (dev_src r (Z.of_nat l)) (d_claim_end (get_dev (rn r) (Z.of_nat l)))); lia).
+      rewrite (next_address_search 300 r (Z.of_nat l) Hi Ha Hd He).
+      pose proof (search_spec 300 (taken r (Z.of_nat l)) _ _ Ha He Hd) as [Nne C].
+      remember (search 300 (taken r (Z.of_nat l)) (dev_src r (Z.of_nat l)) (d_claim_end (get_dev (rn r) (Z.of_nat l)))) as a' eqn:Ea. clear Ea.
+      fold (moved r (Z.of_nat l) a').
+      assert (Hav: a' = 254 \/ (0 <= a' <= 251 /\ ~ sibling_holds r l a')).
+      { destruct C as [[Z1 _]|(j & J1 & J2 & J3 & _)]; [left; exact Z1|right]. split.
+        - rewrite J2. pose proof (Z.mod_pos_bound (dev_src r (Z.of_nat l) + j) 252). lia.
+        - intros Hs. apply taken_spec in Hs. congruence. }
+      assert (Hsl: 0 <= lib_src r l <= 251) by (rewrite Esrc; exact Hop).
+      destruct (good_moved r l a' G Hl Hav Hsl) as (G' & Hn' & Hk' & _ & Hm' & O' & _).
+      pose proof (good_send_ready _ G' (O' O)) as Hr'.
+      assert (Hi': 0 <= Z.of_nat l < dev_count (rn (moved r (Z.of_nat l) a'))) by (apply lib_valid; rewrite Hn'; exact Hl).
+      unfold rstart_claim. rewrite chk_dev_valid by exact Hi'.
+      destruct (start_claim_spec (rn (moved r (Z.of_nat l) a')) (Z.of_nat l) Hr' Hi') as (n' & Es & T & Q & D).
+      { fold (lib_dev (moved r (Z.of_nat l) a') l). fold (lib_src (moved r (Z.of_nat l) a') l). rewrite Hk'. destruct Hav as [->|[? _]]; lia. }
+      rewrite Es. fold (lib_dev (moved r (Z.of_nat l) a') l). fold (lib_src (moved r (Z.of_nat l) a') l). fold (lib_name (moved r (Z.of_nat l) a') l).
+      rewrite Hk', Hm'. exists a', n'. split; [reflexivity|]. split; [exact T|split; [exact Q|split; [exact D|split; [|exact Hav]]]].
+      unfold dev_src in Nne. fold (lib_dev r l) in Nne. fold (lib_src r l) in Nne. rewrite Esrc in Nne. exact Nne.
+Qed.
+
+(* ---------- what a claim does, in terms of addresses, NAMEs, frames and the indication ---------- *)
+Definition claim_result (r:rnode) (x n:Z) : Prop :=
+  let r' := fst (on_claim r x n) in let ev := snd (on_claim r x n) in
+  lib_good r' /\ lib_open r' /\ lib_ndev r' = lib_ndev r /\ (forall l, lib_name r' l = lib_name r l) /\
+  ((r' = r /\ ev = [] /\ ((forall k, (k < lib_ndev r)%nat -> lib_src r k <> x) \/ ~ operational x)) \/
+   exists k, (k < lib_ndev r)%nat /\ lib_src r k = x /\ operational x /\ (forall l, (l < k)%nat -> lib_src r l <> x) /\
+     ((lib_name r k < n /\ (forall l, lib_src r' l = lib_src r l) /\ ev = [claim_event x (lib_name r k)] /\ lib_flag r' = lib_flag r) \/
+      (n < lib_name r k /\ exists a', lib_src r' k = a' /\ a' <> x /\ (a' = 254 \/ (0 <= a' <= 251 /\ ~ sibling_holds r k a')) /\
+         (forall l, l <> k -> lib_src r' l = lib_src r l) /\ ev = [claim_event a' (lib_name r k)] /\ lib_flag r' = true))).
+Lemma on_claim_result r x n : lib_good r -> lib_open r -> 0 <= n < 2^64 -> (forall k, (k < lib_ndev r)%nat -> lib_src r k = x -> lib_name r k <> n) ->
+  claim_result r x n.
+Proof.
+  intros G O Hn Hfor. unfold claim_result. cbv zeta.
+  destruct (on_claim_spec r x n G O Hn Hfor) as [[Hno E]|(k & Hk & Ek & Hop & Hfirst & [[Lt (n' & E & T & Q & D)]|[Gt (a' & n' & E & T & Q & D & Na & Hav)]])]; rewrite E; cbn [fst snd].
+  - repeat (split; [first [assumption|reflexivity]|]). left. repeat split; auto.
+  - destruct (good_tweak r n' G T Q D) as (G' & Hn' & Hs' & Hm' & O' & F').
+    split; [exact G'|split; [exact (O' O)|split; [exact Hn'|split; [exact Hm'|]]]].
+    right. exists k. repeat (split; [assumption|]). left. repeat (split; [first [assumption|reflexivity]|]). exact F'.
+  - assert (Hsl: 0 <= lib_src r k <= 251) by (rewrite Ek; exact Hop).
+    destruct (good_moved r k a' G Hk Hav Hsl) as (G1 & Hn1 & Hk1 & Ho1 & Hm1 & O1 & F1).
+    destruct (good_tweak (moved r (Z.of_nat k) a') n' G1 T Q D) as (G' & Hn' & Hs' & Hm' & O' & F').
+    split; [exact G'|split; [exact (O' (O1 O))|split; [congruence|split; [intros l; rewrite Hm'; apply Hm1|]]]].
+    right. exists k. repeat (split; [assumption|]). right. split; [exact Gt|]. exists a'.
+    split; [rewrite Hs'; exact Hk1|split; [exact Na|split; [exact Hav|split; [|split; [reflexivity|congruence]]]]].
+    intros l Hl. rewrite Hs'. apply Ho1; exact Hl.
+Qed.
+
+Lemma claim_event_decodes x n : 0 <= x < 256 -> 0 <= n < 2^64 -> ev_claims [claim_event x n] = [{| cx := x; cn := n |}].
+Proof.
+  intros Hx Hn. unfold ev_claims, claim_event. cbn [flat_map claim_of_event app].
+  destruct (can_id_fields 6 60928 x 255 ltac:(unfold id_args_ok; lia)) as [P1 _].
+  destruct (P1 eq_refl eq_refl) as (_ & _ & Hsa & _ & Hpgn). cbv zeta in *.
+  set (id := to_can_id 6 60928 x 255) in *.
+  assert (Hpf: id_pf id = 238 /\ id_dp id = 0).
+  { unfold id_pf, id_dp in *. pose proof (Z.mod_pos_bound (id / 2 ^ 16) 256). pose proof (Z.mod_pos_bound (id / 2 ^ 24) 4). lia. }
+  destruct Hpf as [-> ->]. cbn [Z.eqb Pos.eqb andb]. rewrite Hsa, le_val_name by exact Hn. reflexivity.
+Qed.
+
+Lemma only_device_at r x k k' : lib_sib_distinct r -> (k < lib_ndev r)%nat -> (k' < lib_ndev r)%nat -> lib_src r k = x -> lib_src r k' = x -> operational x -> k' = k.
+Proof. intros S Hk Hk' E E' Hop. destruct (Nat.eq_dec k' k) as [|N]; [assumption|]. exfalso. apply (S k' k Hk' Hk N); [rewrite E'; exact Hop|congruence]. Qed.
+
+Theorem lib_R1 : lib_R1_stmt.
+Proof.
+  unfold lib_R1_stmt. intros r x n k (G & O & Hk & Hn) Ek Hop Lt.
+  pose proof G as (_&_&_&_&_&_&S).
+  assert (Hfor: forall l, (l < lib_ndev r)%nat -> lib_src r l = x -> lib_name r l <> n).
+  { intros l Hl El. rewrite (only_device_at r x k l S Hk Hl Ek El Hop). lia. }
+  destruct (on_claim_result r x n G O Hn Hfor) as (_ & _ & _ & _ & [(_ & _ & [No|No])|(k' & Hk' & Ek' & _ & _ & C)]).
+  - exfalso. apply (No k Hk Ek).
+  - contradiction.
+  - rewrite (only_device_at r x k k' S Hk Hk' Ek Ek' Hop) in C. destruct C as [[Lt' _]|[_ (a' & Ea & Na & _)]]; [lia|]. rewrite Ea. exact Na.
+Qed.
+Theorem lib_R3 : lib_R3_stmt.
+Proof.
+  unfold lib_R3_stmt. intros r x n k (G & O & Hk & Hn) Ek Hop Lt.
+  pose proof G as (_&_&_&_&_&_&S).
+  assert (Hfor: forall l, (l < lib_ndev r)%nat -> lib_src r l = x -> lib_name r l <> n).
+  { intros l Hl El. rewrite (only_device_at r x k l S Hk Hl Ek El Hop). lia. }
+  destruct (on_claim_result r x n G O Hn Hfor) as (_ & _ & _ & _ & [(_ & _ & [No|No])|(k' & Hk' & Ek' & _ & _ & C)]).
+  - exfalso. apply (No k Hk Ek).
+  - contradiction.
+  - rewrite (only_device_at r x k k' S Hk Hk' Ek Ek' Hop) in C. destruct C as [(_ & Hs & Ev & _)|[Gt _]]; [|lia].
+    split; [rewrite Hs; exact Ek|]. split; [exact Ev|]. rewrite Ev.
+    rewrite claim_event_decodes; [left; reflexivity|unfold operational in Hop; lia|].
+    destruct (good_dev_ok r k G Hk) as [_ Nm]. exact Nm.
+Qed.
+Theorem lib_R4 : lib_R4_stmt.
+Proof.
+  unfold lib_R4_stmt. intros r x n k (G & O & Hk & Hn) Hf Hne.
+  assert (Hfor: forall l, (l < lib_ndev r)%nat -> lib_src r l = x -> lib_name r l <> n) by (intros l Hl _; apply Hf; exact Hl).
+  destruct (on_claim_result r x n G O Hn Hfor) as (_ & _ & _ & _ & [(-> & _)|(k' & Hk' & Ek' & Hop & _ & C)]); [reflexivity|].
+  destruct Hne as [Hne|Hne]; [|contradiction].
+  destruct C as [(_ & Hs & _)|(_ & a' & _ & _ & _ & Ho & _)]; [apply Hs|]. apply Ho. congruence.
+Qed.
+Theorem lib_R2 : lib_R2_stmt.
+Proof.
+  unfold lib_R2_stmt. intros r x n k (G & O & Hk & Hn) Hf Hch Hop'.
+  assert (Hfor: forall l, (l < lib_ndev r)%nat -> lib_src r l = x -> lib_name r l <> n) by (intros l Hl _; apply Hf; exact Hl).
+  destruct (on_claim_result r x n G O Hn Hfor) as (_ & _ & _ & _ & [(E & _)|(k' & Hk' & Ek' & Hop & _ & C)]); [rewrite E in Hch; congruence|].
+  destruct C as [(_ & Hs & _)|(_ & a' & Ea & _ & _ & Ho & Ev & _)]; [rewrite Hs in Hch; congruence|].
+  destruct (Nat.eq_dec k k') as [->|Hkk]; [|exfalso; apply Hch; apply Ho; exact Hkk].
+  rewrite Ev, Ea in *. rewrite claim_event_decodes; [left; reflexivity|unfold operational in Hop'; lia|].
+  destruct (good_dev_ok r k' G Hk') as [_ Nm]. exact Nm.
+Qed.
+Theorem lib_R5_arbitration : lib_R5_arbitration_stmt.
+Proof.
+  unfold lib_R5_arbitration_stmt. intros r x n G O Hn Hf. cbv zeta.
+  assert (Hfor: forall l, (l < lib_ndev r)%nat -> lib_src r l = x -> lib_name r l <> n) by (intros l Hl _; apply Hf; exact Hl).
+  destruct (on_claim_result r x n G O Hn Hfor) as (G' & O' & Hn' & Hm' & C).
+  split; [exact G'|split; [exact O'|split; [exact Hn'|split; [exact Hm'|]]]].
+  intros f Hin. destruct C as [(_ & Ev & _)|(k & Hk & Ek & Hop & _ & C)]; [rewrite Ev in Hin; destruct Hin|].
+  destruct (good_dev_ok r k G Hk) as [_ Nm]. exists k. split; [exact Hk|].
+  destruct C as [(_ & _ & Ev & _)|(_ & a' & _ & _ & Hav & _ & Ev & _)]; rewrite Ev in Hin.
+  - rewrite claim_event_decodes in Hin; [|unfold operational in Hop; lia|exact Nm]. destruct Hin as [<-|[]]. reflexivity.
+  - rewrite claim_event_decodes in Hin; [|destruct Hav as [->|[? _]]; lia|exact Nm]. destruct Hin as [<-|[]]. reflexivity.
+Qed.
+Print Assumptions lib_R1.
+Print Assumptions lib_R2.
+Print Assumptions lib_R3.
+Print Assumptions lib_R4.
+Print Assumptions lib_R5_arbitration.
+
+(* ---------- D-04: a commanded address can put two devices of one node on the same address ---------- *)
+Lemma d04_good_dec :
+  exists r, map p_kind (nt_parts (fst (net_run gf_none d04_net (firstn 4 d04_ops)))) = [PLib r] /\
+            is_active_node (rn r) = true /\ n_drv (rn r) = [] /\ q_rd (n_q (rn r)) = q_wr (n_q (rn r)) /\ q_max (n_q (rn r)) = 80 /\
+            length (q_buf (n_q (rn r))) = 80%nat /\ 0 <= q_rd (n_q (rn r)) < 80 /\
+            map d_src (n_devs (rn r)) = [30; 31] /\ map d_claim_end (n_devs (rn r)) = [29; 30] /\ map d_name (n_devs (rn r)) = [26; 27] /\ n_open (rn r) = 3 /\ n_pgn (rn r) = no_lists.
+Proof. eexists. vm_compute. repeat split; try reflexivity; try discriminate. Qed.
+
+Lemma d04_node_facts :
+  exists r, map p_kind (nt_parts (fst (net_run gf_none d04_net (firstn 4 d04_ops)))) = [PLib r] /\ lib_good r /\ lib_open r /\
+            lib_ndev r = 2%nat /\ lib_src r 0 = 30 /\ lib_src r 1 = 31 /\ lib_name r 0 = 26 /\ lib_name r 1 = 27.
+Proof.
+  destruct d04_good_dec as (r & E & A & D & Q & Mx & Lb & Rd & Srcs & Ends & Names & O & Pg).
+  exists r. split; [exact E|]. clear E.
+  destruct (n_devs (rn r)) as [|a [|b [|c t]]] eqn:Hd; try discriminate.
+  cbn [map] in Srcs, Ends, Names. injection Srcs as Sa Sb. injection Ends as Ea Eb. injection Names as Na Nb.
+  assert (S0: lib_src r 0 = 30) by (unfold lib_src, lib_dev, get_dev, znth; rewrite Hd; exact Sa).
+  assert (S1: lib_src r 1 = 31) by (unfold lib_src, lib_dev, get_dev, znth; rewrite Hd; exact Sb).
+  assert (N0: lib_name r 0 = 26) by (unfold lib_name, lib_dev, get_dev, znth; rewrite Hd; exact Na).
+  assert (N1: lib_name r 1 = 27) by (unfold lib_name, lib_dev, get_dev, znth; rewrite Hd; exact Nb).
+  assert (L: lib_ndev r = 2%nat) by (unfold lib_ndev; rewrite Hd; reflexivity).
+  split; [|split; [exact O|split; [exact L|split; [exact S0|split; [exact S1|split; [exact N0|exact N1]]]]]].
+  unfold lib_good. split; [exact A|split; [exact D|split; [|split; [exact Q|split; [rewrite Pg; reflexivity|split]]]]].
+  - unfold ring_wf. rewrite Mx, Lb, <- Q. repeat split; try lia.
+  - rewrite Hd. repeat constructor; unfold dev_ok; rewrite ?Sa, ?Sb, ?Ea, ?Eb, ?Na, ?Nb; lia.
+  - intros k l Hk Hl Hkl _. rewrite L in Hk, Hl.
+    destruct k as [|[|k]]; destruct l as [|[|l]]; try lia; rewrite ?S0, ?S1; lia.
+Qed.
+
+Theorem commanded_collision_refuted : commanded_collision_refuted_stmt.
+Proof.
+  unfold commanded_collision_refuted_stmt. cbv zeta. split; [vm_compute; reflexivity|].
+  destruct d04_node_facts as (r & E & G & O & _ & S0 & S1 & _). exists r. tauto.
+Qed.
+(* the premises of lib_R1 .. lib_R5 can be met: the node of the D-04 witness before the command *)
+Lemma lib_nonvacuous : exists r, claim_args r 30 5 0 /\ lib_src r 0 = 30 /\ operational 30 /\ 5 < lib_name r 0 /\ lib_name r 0 < 100 /\
+  foreign_name r 5 /\ foreign_name r 100 /\ lib_src r 1 = 31.
+Proof.
+  destruct d04_node_facts as (r & _ & G & O & L & S0 & S1 & N0 & N1). exists r.
+  assert (F: forall n, n <> 26 -> n <> 27 -> foreign_name r n).
+  { intros n A B l Hl. rewrite L in Hl. destruct l as [|[|l]]; try lia; rewrite ?N0, ?N1; congruence. }
+  unfold claim_args, operational. rewrite L, N0.
+  split; [split; [exact G|split; [exact O|split; lia]]|]. split; [exact S0|split; [lia|split; [lia|split; [lia|split; [apply F; lia|split; [apply F; lia|exact S1]]]]]].
+Qed.
+Print Assumptions commanded_collision_refuted.
+
+(* ---------- the source address of what SendMsg builds ---------- *)
+Theorem tx_source_is_reported : tx_source_is_reported_stmt.
+Proof.
+  unfold tx_source_is_reported_stmt. split.
+  - intros n m idev n1 m' i id Hidev HG. destruct (gate_inv _ _ _ _ _ HG) as (_ & _ & Hinv).
+    destruct (Hinv _ _ _ eq_refl) as (_ & _ & I3 & _ & _ & _ & _ & _ & _ & I10).
+    assert (Eg: idev >=? 0 = true) by (apply Z.geb_le; lia). rewrite Eg in *. rewrite I10. cbn [m_src m_dst]. split; [reflexivity|exact I3].
+  - intros n m idev Hi Hdrv Hwf Hemp Hlen Hpri Hpgn Hdst Hsrc Htp id len data ok Hin.
+    destruct (send_gate n m idev) as [n1 [[[m' i] id0]|]] eqn:HG.
+    + pose proof (send_ok n m idev n1 m' i id0 Hdrv Hwf Hemp Hlen HG) as Hs.
+      destruct (gate_inv _ _ _ _ _ HG) as (_ & _ & Hinv). destruct (Hinv _ _ _ eq_refl) as (_ & _ & I3 & I4 & _ & _ & _ & _ & _ & I10).
+      assert (Eg: idev >=? 0 = true) by (apply Z.geb_le; lia). rewrite Eg in *.
+      assert (Htp': m_tp m' = false) by (rewrite I10; exact Htp).
+      specialize (Hs (or_intror Htp')). destruct (send_msg n m idev) as [[n2 ev] ok2]. destruct Hs as (_ & Ev & Hid & _). cbn [fst snd] in Hin.
+      rewrite Ev in Hin. apply in_map_iff in Hin as (lf & Hlf & _). injection Hlf as <- _ _ _.
+      rewrite I3.
+      set (dst := if negb (Z.land (m_pgn m) 255 =? 0) then 255 else m_dst m) in *.
+      assert (Hd: 0 <= dst < 256) by (unfold dst; destruct (negb _); lia).
+      destruct (can_id_fields (m_pri m) (m_pgn m) (d_src (get_dev n idev)) dst ltac:(unfold id_args_ok; lia)) as [P1 P2]. cbv zeta in *.
+      destruct (pdu1 (m_pgn m)) eqn:Pd.
+      * assert (Hlow: m_pgn m mod 256 = 0).
+        { destruct (Z.eq_dec (m_pgn m mod 256) 0) as [|Nz]; [assumption|]. exfalso. apply I4. rewrite I3. apply to_can_id_refused; assumption. }
+        apply (P1 eq_refl Hlow).
+      * apply (P2 eq_refl).
+    + unfold send_msg in Hin. rewrite HG in Hin. destruct Hin.
+Qed.
+Print Assumptions tx_source_is_reported.
